@@ -151,6 +151,33 @@ func GetTaskResponseDigestEncodeByAbi(h TaskResponse) ([32]byte, error) {
 	return hashAbi, nil
 }
 
+// Subtract returns the sorted elements of a that are not in b (a set difference, unlike
+// Difference, which also returns the elements of b that are not in a). It returns nil when
+// nothing is left.
+func Subtract(a, b []string) []string {
+	var rest []string //nolint:prealloc
+
+	exclude := make(map[string]struct{}, len(b))
+	for _, item := range b {
+		exclude[item] = struct{}{}
+	}
+	seen := make(map[string]struct{}, len(a))
+	for _, item := range a {
+		if _, found := exclude[item]; found {
+			continue
+		}
+		if _, dup := seen[item]; dup {
+			continue
+		}
+		seen[item] = struct{}{}
+		rest = append(rest, item)
+	}
+	sort.Strings(rest)
+
+	return rest
+}
+
+// Difference returns the sorted symmetric difference of a and b.
 func Difference(a, b []string) []string {
 	var different []string //nolint:prealloc
 
